@@ -664,7 +664,18 @@ _K = {
     "V": ("2553c4b8", "m/48h/1h/0h/2h/2046266013/1945465733/1801020214/1402692941",
           "Vpub5uMrp2GYpnHN8BkjvXpP71TuZ8BDqu61PPcwEKSzE9Mcuow727mUJNsDsKdzAiupHXea5F7ZxD9SaSQvbr1hvpNjrijJQ2J46VQjc5yEcm8"),
 }
+def _same_seed_records():
+    """two key records derived from ONE seed (same master fingerprint, different account paths) -- a cosigner contributing two keys"""
+    if "X" not in _K:
+        hd = loader.native("hd")
+        root = hd.HDPrivateKey.from_seed(b"verif same-fingerprint seed 0001", network="testnet")
+        fp = root.fingerprint().hex()
+        for tag, path in (("X", "m/48h/1h/0h/2h"), ("Y", "m/48h/1h/1h/2h")):
+            _K[tag] = (fp, path, root.traverse(path).xpub())
+
+
 WALLETS = {                       # name -> (m, record names, account index, sort_key_records, checksum pinned in the tests or None)
+    "2of3-same-xfp": (2, "XYS", 0, True, None),
     "1of1": (1, "A", 0, True, None),
     "1of2": (1, "IS", 0, True, "t0v98kwu"),
     "2of3": (2, "ABD", 0, False, "0stzl64e"),       # the tests' texts list the records unsorted (parse keeps the order)
@@ -676,6 +687,8 @@ _WCACHE = {}
 
 
 def _records(names, acct):
+    if "X" in names or "Y" in names:
+        _same_seed_records()
     return [{"xfp": _K[k][0], "path": _K[k][1], "xpub_parent": _K[k][2], "account_index": acct} for k in names]
 
 
@@ -828,7 +841,7 @@ def ref_address(m, secs, network):
     return _bech32_segwit("bc" if network == "mainnet" else "tb", 0, hashlib.sha256(script).digest())
 
 
-def ob_wallet(name):
+def _wallet_facts(name):
     def f():
         nat = loader.native("descriptor")
         hd = loader.native("hd")
@@ -898,11 +911,24 @@ def ob_wallet(name):
                 notes.append("upper-case fingerprint refused by __init__")
         return True, (f"NOT solver-decided: {len(W['text'])}-character descriptor round-trips; 6 addresses == hand-built P2WSH over sorted "
                       f"child keys, pairwise distinct (receive != change); {nperm} supply orders give the same text and addresses; " + "; ".join(notes))
-    return conc_run(f, f"wallet {name}: round trip, addresses, supply order (concrete, NOT solver-decided)")
+    return f
+
+
+def ob_wallet(name):
+    return conc_run(_wallet_facts(name), f"wallet {name}: round trip, addresses, supply order (concrete, NOT solver-decided)",
+                    replay="wallet", witness={"wallet": name})
+
+
+def replay_wallet(w):
+    _WCACHE.clear()
+    ok, detail = _wallet_facts(w["wallet"])()
+    return {"violated": not ok, "observed": detail}
 
 
 def ob_sweep(name, positions):
     """native P2WSHSortedMulti.parse on every single-character substitution at the given positions of text#checksum"""
+    found = []
+
     def f():
         nat = loader.native("descriptor")
         W = wallet(name)
@@ -923,10 +949,30 @@ def ob_sweep(name, positions):
                 else:
                     accepted.append((i, full[i], ch))
         if accepted:
+            found.extend(accepted)
             return False, f"substitutions accepted by parse(): {accepted[:6]}"
         note = f"; OBSERVED: {sepacc} replacements of the '#' separator are accepted (checksum ignored)" if sepacc else ""
         return True, f"NOT solver-decided: {nsub} single-character substitutions at {len(positions)} positions of the {name} record refused by parse()" + note
-    return conc_run(f, f"native single-character sweep of the {name} record (concrete, NOT solver-decided)")
+    r = conc_run(f, f"native single-character sweep of the {name} record (concrete, NOT solver-decided)", replay="sweep",
+                 witness={"wallet": name})
+    for v in r["violations"]:
+        v["witness"]["accepted"] = [[i, a, b] for i, a, b in found[:20]]
+    return r
+
+
+def replay_sweep(w):
+    from buidl import descriptor
+    _WCACHE.clear()
+    W = wallet(w["wallet"])
+    full = W["text"] + "#" + W["checksum"]
+    bad = []
+    for i, orig, ch in w["accepted"]:
+        try:
+            descriptor.P2WSHSortedMulti.parse(_alter(full, i, ch))
+            bad.append((i, orig, ch))
+        except Exception:
+            pass
+    return {"violated": bool(bad), "observed": f"parse() accepts the {w['wallet']} descriptor with a single character altered (position, original, new): {bad[:6]}"}
 
 
 def _xpub_spans(text):
@@ -969,7 +1015,7 @@ def obligations(tier):
                           budget_s=1500))
         obs.append(Ob("O2-substitution", ob_substitution, {"wname": name, "where": "checksum", "positions": tuple(range(8))},
                       replay="substitution"))
-    for name in ("1of1", "1of2", "2of3", "slip132") if q else ("1of1", "1of2", "2of3", "1of4", "slip132", "2of3-acct7"):
+    for name in ("1of1", "1of2", "2of3", "slip132", "2of3-same-xfp") if q else ("1of1", "1of2", "2of3", "1of4", "slip132", "2of3-acct7", "2of3-same-xfp"):
         obs.append(Ob("O3-wallet", ob_wallet, {"name": name}))
     for name in (("1of1",) if q else ("1of1", "1of2")):
         W = wallet(name)
